@@ -94,7 +94,7 @@ func runOpCase(c *Case) string {
 	}
 	rel := probe.teardowns
 	_ = sub
-	return fmt.Sprintf("res %s trace=%s drops=%s steps=%s subs=%d rel=%d", c.id, joinOrDash(rec.trace), joinOrDash(rec.drops), joinOrDash(steps), probe.subs, rel)
+	return fmt.Sprintf("res %s trace=%s drops=%s steps=%s subs=%d rel=%d alias=%s", c.id, joinOrDash(rec.trace), joinOrDash(rec.drops), joinOrDash(steps), probe.subs, rel, rec.aliasCheck())
 }
 
 // ---------- generation ----------
@@ -156,9 +156,9 @@ func genOps(tier string, seed int64, only string) []*Case {
 	r := rand.New(rand.NewSource(seed))
 	var lists [][]int
 	if tier == "thorough" {
-		lists = valueLists(3)
-		for i := 0; i < 40; i++ {
-			lists = append(lists, randomList(r, 4+r.Intn(36)))
+		lists = valueLists(4)
+		for i := 0; i < 100; i++ {
+			lists = append(lists, randomList(r, 5+r.Intn(35)))
 		}
 	} else {
 		lists = valueLists(2)
